@@ -424,8 +424,25 @@ def generate(repo):
                   'return self.results_store.get(idx)'],
                  f"SearchResultMinimal.{prop}: None iff the metadata slot "
                  "is None, else the store entry", f)
-        return ("Definition x_result_meta_none_iff_slot_none : bool := true.",
-                {})
+        # SearchResult.__init__: the sequence id is taken from the linked
+        # sequence definition BEFORE the early return of results that do not
+        # store their contents (a marker result still belongs to its section)
+        init = find_def(rt, 'SearchResult.__init__')
+        top = [U(n.test) if isinstance(n, ast.If) else None
+               for n in init.body]
+        need('search_def.sequence_def' in top
+             and 'not search_def.store_result_contents' in top
+             and top.index('search_def.sequence_def')
+             < top.index('not search_def.store_result_contents'),
+             "SearchResult.__init__: sequence_id is not set before the "
+             "store_result_contents early return", init)
+        seq_if = init.body[top.index('search_def.sequence_def')]
+        need(U(seq_if.body[-1]) ==
+             'self.sequence_id = search_def.sequence_def.id',
+             "sequence_id = id of the linked sequence definition", seq_if)
+        return ("Definition x_result_meta_none_iff_slot_none : bool := true."
+                "\nDefinition x_result_sequence_id_before_early_return : "
+                "bool := true.", {})
     out.item('x_result_meta', result_meta)
 
     def task_defs():
@@ -451,6 +468,175 @@ def generate(repo):
                 "true.\nDefinition x_task_line_loop_over_search_defs : bool "
                 ":= true.", {})
     out.item('x_task_defs', task_defs)
+
+    # ------------------------------------------- round 3: remaining lookups
+    def fs_add():
+        f = find_def(tree, 'FileSearcher.add')
+        body = real_body(f)
+        need(len(body) == 2, "FileSearcher.add: restriction + register", f)
+        test, reg = body
+        need(isinstance(test, ast.If) and not test.orelse
+             and [U(x) for x in strip_log(test.body)] ==
+             ['self.constraints_manager.global_restrictions.add('
+              'searchdef.id)'],
+             "restriction keyed by the definition id", test)
+        t = Tr(names={'allow_global_constraints': 'allow'},
+               bools=['allow']).cond(test.test)
+        need(U(reg) == 'self.catalog.register(searchdef, path)',
+             "register(searchdef, path)", reg)
+        g = find_def(tree, 'FileSearcher.files')
+        need([U(x) for x in real_body(g)] ==
+             ["return [e['path'] for e in self.catalog]"],
+             "FileSearcher.files: entry paths in catalog order", g)
+        h = find_def(tree, 'FileSearcher.resolve_source_id')
+        need([U(x) for x in real_body(h)] ==
+             ['return self.catalog.source_id_to_path(source_id)'],
+             "resolve_source_id delegates to the catalog", h)
+        return (f"Definition x_fs_add_restricts (allow : bool) : bool := {t}."
+                "\nDefinition x_fs_files_are_entry_paths : bool := true.\n"
+                "Definition x_fs_resolve_source_delegates : bool := true.",
+                {'test': U(test.test)})
+    out.item('x_fs_add', fs_add)
+
+    def catalog_lookups():
+        f = find_def(tree, 'SearchCatalog.resolve_from_id')
+        need([U(x) for x in real_body(f)] ==
+             ['if search_id in self._simple_searches:\n'
+              '    return self._simple_searches[search_id]',
+              'return self._sequence_searches[search_id]'],
+             "resolve_from_id: simple table first, then sequence table", f)
+        g = find_def(tree, 'SearchCatalog.resolve_from_tag')
+        need([U(x) for x in real_body(g)] ==
+             ['searches = []',
+              'for search_id in self._search_tags[tag]:\n'
+              '    searches.append(self.resolve_from_id(search_id))',
+              'return searches'],
+             "resolve_from_tag: every id of _search_tags[tag], in order "
+             "(KeyError for an unknown tag)", g)
+        h = find_def(tree, 'SearchCatalog.source_id_to_path')
+        body = real_body(h)
+        need(len(body) == 2 and isinstance(body[0], ast.Try)
+             and [U(x) for x in body[0].body] ==
+             ['return self._source_ids[s_id]']
+             and len(body[0].handlers) == 1
+             and U(body[0].handlers[0].type) == 'KeyError'
+             and not strip_log(body[0].handlers[0].body)
+             and not body[0].orelse and not body[0].finalbody
+             and U(body[1]) == 'return None',
+             "source_id_to_path: table entry, None for an unknown id", h)
+        ln = find_def(tree, 'SearchCatalog.__len__')
+        it = find_def(tree, 'SearchCatalog.__iter__')
+        need([U(x) for x in real_body(ln)] == ['return len(self._entries)']
+             and [U(x) for x in real_body(it)] ==
+             ['yield from self._entries.values()'],
+             "catalog length / iteration = the entries, in order", ln)
+        return ("Definition x_resolve_from_id_simple_then_sequence : bool := "
+                "true.\nDefinition x_resolve_from_tag_maps_tag_table : bool "
+                ":= true.\nDefinition x_source_id_unknown_is_none : bool := "
+                "true.\nDefinition x_catalog_iterates_entries : bool := "
+                "true.", {})
+    out.item('x_catalog_lookups', catalog_lookups)
+
+    def collection_state():
+        cls = find_def(tree, 'SearchResultsCollection')
+        init = find_def(tree, 'SearchResultsCollection.__init__')
+        ib = [U(x) for x in real_body(init)]
+        need(ib[0] == 'super().__init__()' and ib[-1] == 'self.reset()'
+             and 'self.search_catalog = search_catalog' in ib
+             and 'self.results_store = results_store' in ib,
+             "__init__: catalog, store, then reset()", init)
+        reset = find_def(tree, 'SearchResultsCollection.reset')
+        rb = real_body(reset)
+        need(all(isinstance(x, ast.Assign) and len(x.targets) == 1
+                 and isinstance(x.targets[0], ast.Attribute)
+                 and U(x.targets[0].value) == 'self' for x in rb),
+             "reset: only assignments to attributes", reset)
+        cleared = {U(x.targets[0]): U(x.value) for x in rb}
+        need(cleared.get('self._results_by_path') == '{}',
+             "reset empties _results_by_path", reset)
+        # every piece of state that add()/__init__ maintain besides the
+        # catalog and the store must be re-initialised by reset()
+        state = set()
+        for fn in (find_def(tree, 'SearchResultsCollection.add'), init):
+            for n in ast.walk(fn):
+                tgt = []
+                if isinstance(n, ast.Assign):
+                    tgt = n.targets
+                elif isinstance(n, (ast.AugAssign, ast.AnnAssign)):
+                    tgt = [n.target]
+                elif isinstance(n, ast.Call) and isinstance(n.func,
+                                                            ast.Attribute):
+                    tgt = [n.func.value]       # self.x.append(..) etc.
+                for t in tgt:
+                    while isinstance(t, ast.Subscript):
+                        t = t.value
+                    if isinstance(t, ast.Attribute) and U(t.value) == 'self' \
+                            and isinstance(getattr(t, 'ctx', None),
+                                           (ast.Store, ast.Load)):
+                        state.add(U(t))
+        state -= {'self.search_catalog', 'self.results_store', 'self.reset',
+                  'self.search_catalog.source_id_to_path'}
+        state = {x for x in state if x.count('.') == 1}
+        missing = sorted(state - set(cleared))
+        need(not missing, "reset() does not re-initialise state that add()/"
+             f"__init__ maintain: {missing}", reset)
+        # and __len__ & co read only that state (through files/find_by_path)
+        files = find_def(tree, 'SearchResultsCollection.files')
+        need([U(x) for x in real_body(files)] ==
+             ['return list(self._results_by_path.keys())'],
+             "files = keys of _results_by_path", files)
+        ga = find_def(tree, 'SearchResultsCollection.__getattribute__')
+        need([U(x) for x in real_body(ga)] ==
+             ["if name != 'data':\n"
+              "    return super().__getattribute__(name)",
+              'results = {}',
+              'for path, _results in self._results_by_path.items():\n'
+              '    results[path] = _results',
+              'return results'],
+             "`data` is a fresh dict filled from _results_by_path", ga)
+        del cls
+        return ("Definition x_collection_init_resets : bool := true.\n"
+                "Definition x_reset_reinitialises_all_state : bool := true.\n"
+                "Definition x_files_are_keys : bool := true.\n"
+                "Definition x_data_is_copy_of_by_path : bool := true.",
+                {'state': sorted(state), 'reset': sorted(cleared)})
+    out.item('x_collection_state', collection_state)
+
+    def searcher_base():
+        for name in ('files', 'num_parallel_tasks', 'add', 'run'):
+            f = find_def(tree, 'SearcherBase.' + name)
+            need(any(U(d) == 'abc.abstractmethod' for d in f.decorator_list)
+                 and not real_body(f),
+                 f"SearcherBase.{name}: abstract, docstring only", f)
+        return "Definition x_searcher_base_is_abstract : bool := true.", {}
+    out.item('x_searcher_base', searcher_base)
+
+    def field_info():
+        init = find_def(tree, 'ResultFieldInfo.__init__')
+        need([U(x) for x in real_body(init)] ==
+             ['if issubclass(fields.__class__, dict):\n    data = fields\n'
+              'else:\n    data = {f: None for f in fields}',
+              'super().__init__(data)'],
+             "ResultFieldInfo: a dict keeps its types, a list has none", init)
+        et = find_def(tree, 'ResultFieldInfo.ensure_type')
+        need([U(x) for x in real_body(et)] ==
+             ['if name not in self.data or self.data[name] is None:\n'
+              '    return value',
+              'return self.data[name](value)'],
+             "ensure_type: cast iff the field declares a type", et)
+        itn = find_def(tree, 'ResultFieldInfo.index_to_name')
+        body = real_body(itn)
+        need(len(body) == 2 and U(body[0]) ==
+             'for i, _field in enumerate(self.data):\n'
+             '    if index == i:\n        return _field'
+             and isinstance(body[1], ast.Raise)
+             and U(body[1].exc.func) == 'FileSearchException',
+             "index_to_name: the index-th field name, else "
+             "FileSearchException", itn)
+        return ("Definition x_field_info_list_untyped : bool := true.\n"
+                "Definition x_ensure_type_casts_iff_typed : bool := true.\n"
+                "Definition x_index_to_name_is_nth : bool := true.", {})
+    out.item('x_field_info', field_info)
 
     text = ("(* GENERATED from the repository working tree by "
             "translator/plugins/catalog.py - do not edit *)\n"
